@@ -27,6 +27,7 @@ type agreeState struct {
 	servedHit  bool
 	writer     *nullWriter
 	routerOpts bool
+	prime      *http.Request // a request served through an ignored trailing slash with parameters (nil: none in this set)
 }
 
 func SetupC01Agree() any {
@@ -52,6 +53,28 @@ func SetupC01Agree() any {
 	st.set = set
 	st.r = r
 	st.ref = newRefRouter(set)
+	// a priming request: matches a route with parameters only by toggling the trailing slash; serving it leaves
+	// trailing-slash state and parameters in the pooled context the request under test reuses
+	for _, rt := range set.Routes {
+		if rt.Pattern[0] != '/' || rt.Method != set.Routes[0].Method {
+			continue
+		}
+		ps := []kv{}
+		for _, t := range tokens(rt.Pattern) {
+			if t.kind != tkStatic {
+				ps = append(ps, kv{t.name, "pv"})
+			}
+		}
+		if len(ps) == 0 {
+			continue
+		}
+		direct, _ := substitute(rt.Pattern, ps)
+		cand := toggleSlash(direct)
+		if res := st.ref.lookup(rt.Method, "", cand, true); !res.ambiguous && res.route != nil && res.tsr && cand != "/" {
+			st.prime = &http.Request{Method: rt.Method, URL: &url.URL{Path: cand}}
+			break
+		}
+	}
 	return st
 }
 
@@ -124,6 +147,10 @@ func HarnessC01Agree(st any) {
 
 	// ServeHTTP: every route ignores trailing slashes, so the handler runs for direct and tsr matches
 	// (except path "/" and CONNECT, which never take a trailing-slash action).
+	if s.prime != nil {
+		s.r.ServeHTTP(s.writer, s.prime)
+		sym.Cover("primed with an ignored trailing-slash match")
+	}
 	s.servedHit, s.served, s.servedPs = false, nil, nil
 	s.writer.status = 0
 	s.r.ServeHTTP(s.writer, req)
